@@ -53,6 +53,8 @@ def file_bundles(tier, seed):
         for ver in (3, 4):
             grp = f"v{ver}"
             cfgs = [("run1", None, "mem", []), ("run2", None, "mem", []), ("file", None, "file", [])]
+            if ver == 4:
+                cfgs.append(("path", None, "path", []))      # cfb::create(path) over an existing longer file
             cfgs += [(f"chunks{'_'.join(map(str, c))}", None, "mem", c) for c in chunks]
             for mb in (MAXBUFS if tier == "thorough" else [MAXBUFS[si % 4], MAXBUFS[(si + 1) % 4]]):
                 cfgs.append((f"mb{mb}", mb, "mem", []))
